@@ -1,6 +1,313 @@
+/-
+Helper lemmas for C05 (topological queries): facts about `IsGrouping` (group sizes are value counts),
+the edge lists, the edge grouping, and the label-relaxation model of connected components.
+-/
 import TrimeshVerif.Model.Topology
 import TrimeshVerif.Proofs.Grouping
 import TrimeshVerif.Props.C06
+namespace TV
+variable {α : Type} [DecidableEq α]
+
+/-! ### generic list facts -/
+
+omit [DecidableEq α] in
+theorem nodup_eraseDups [BEq α] [LawfulBEq α] : ∀ (n : Nat) (l : List α), l.length ≤ n → l.eraseDups.Nodup
+  | _, [], _ => by simp
+  | 0, _ :: _, h => by simp at h
+  | n + 1, a :: as, h => by
+    rw [List.eraseDups_cons, List.nodup_cons]
+    refine ⟨by simp, nodup_eraseDups n _ ?_⟩
+    have := List.length_filter_le (fun b => !b == a) as
+    simp only [List.length_cons] at h
+    omega
+
+omit [DecidableEq α] in
+theorem eraseDups_nodup [BEq α] [LawfulBEq α] (l : List α) : l.eraseDups.Nodup := nodup_eraseDups l.length l (Nat.le_refl _)
+
+omit [DecidableEq α] in
+/-- two duplicate-free lists with the same members have the same length -/
+theorem length_eq_of_nodup_of_mem_iff {l₁ l₂ : List α} (d₁ : l₁.Nodup) (d₂ : l₂.Nodup)
+    (h : ∀ a, a ∈ l₁ ↔ a ∈ l₂) : l₁.length = l₂.length :=
+  ((List.perm_ext_iff_of_nodup d₁ d₂).mpr h).length_eq
+
+omit [DecidableEq α] in
+theorem length_eraseDups_eq [BEq α] [LawfulBEq α] {l₁ l₂ : List α} (d₁ : l₁.Nodup) (h : ∀ a, a ∈ l₁ ↔ a ∈ l₂) :
+    l₁.length = l₂.eraseDups.length :=
+  length_eq_of_nodup_of_mem_iff d₁ (eraseDups_nodup l₂) (fun a => by rw [List.mem_eraseDups]; exact h a)
+
+/-- number of indices carrying a value = count of the value -/
+theorem length_filter_range_eq_count [BEq α] [LawfulBEq α] (vs : List α) (x : α) :
+    ((List.range vs.length).filter (fun j => decide (vs[j]? = some x))).length = vs.count x := by
+  induction vs with
+  | nil => simp
+  | cons a t ih =>
+    rw [List.length_cons, List.range_succ_eq_map, List.filter_cons, List.filter_map, List.count_cons]
+    have : ((fun j => decide ((a :: t)[j]? = some x)) ∘ Nat.succ) = (fun j => decide (t[j]? = some x)) := by
+      funext j; simp
+    rw [this]
+    by_cases e : a = x
+    · subst e; simp [ih]
+    · simp [ih, e]
+
+omit [DecidableEq α] in
+theorem IsGrouping.nodup {vs : List α} {gs : List (List Nat)} (h : IsGrouping vs gs)
+    {g : List Nat} (hg : g ∈ gs) : g.Nodup := by
+  have h1 : gs.flatten.Nodup := h.perm.symm.nodup List.nodup_range
+  exact h1.sublist (List.sublist_flatten_of_mem hg)
+
+theorem IsGrouping.mem_iff {vs : List α} {gs : List (List Nat)} (h : IsGrouping vs gs)
+    {g : List Nat} (hg : g ∈ gs) {i : Nat} (hi : i ∈ g) (j : Nat) :
+    j ∈ g ↔ j < vs.length ∧ vs[j]? = vs[i]? := by
+  constructor
+  · intro hj; exact ⟨h.mem_lt hg hj, h.same g hg j hj i hi⟩
+  · rintro ⟨hj, e⟩
+    obtain ⟨g', hg', hjg'⟩ := h.covers hj
+    have := h.same_group hg' hg hjg' hi e
+    subst this; exact hjg'
+
+/-- the size of a group is the number of occurrences of its value -/
+theorem IsGrouping.length_eq_count [BEq α] [LawfulBEq α] {vs : List α} {gs : List (List Nat)}
+    (h : IsGrouping vs gs)
+    {g : List Nat} (hg : g ∈ gs) {i : Nat} (hi : i ∈ g) {x : α} (hx : vs[i]? = some x) :
+    g.length = vs.count x := by
+
+  rw [← length_filter_range_eq_count]
+  refine ((List.perm_ext_iff_of_nodup (h.nodup hg) (List.nodup_range.filter _)).mpr ?_).length_eq
+  intro j
+  rw [h.mem_iff hg hi j, hx]
+  simp
+
+/-! ### more about `IsGrouping` -/
+
+omit [DecidableEq α] in
+/-- transport a grouping along an injective relabelling of the values -/
+theorem IsGrouping.of_map {β : Type} [DecidableEq β] {vs : List α} {f : α → β} {gs : List (List Nat)}
+    (finj : ∀ a ∈ vs, ∀ b ∈ vs, f a = f b → a = b) (h : IsGrouping (vs.map f) gs) :
+    IsGrouping vs gs := by
+  have key : ∀ i j : Nat, (vs.map f)[i]? = (vs.map f)[j]? ↔ vs[i]? = vs[j]? := by
+    intro i j
+    simp only [List.getElem?_map]
+    constructor
+    · intro e
+      cases hi : vs[i]? with
+      | none => cases hj : vs[j]? with
+        | none => rfl
+        | some b => rw [hi, hj] at e; simp at e
+      | some a => cases hj : vs[j]? with
+        | none => rw [hi, hj] at e; simp at e
+        | some b =>
+          rw [hi, hj] at e
+          simp only [Option.map_some, Option.some.injEq] at e
+          rw [finj a (List.mem_of_getElem? hi) b (List.mem_of_getElem? hj) e]
+    · intro e; rw [e]
+  refine ⟨by simpa using h.perm, ?_, ?_, h.ne_nil, h.ascending⟩
+  · intro g hg i hi j hj; exact (key i j).mp (h.same g hg i hi j hj)
+  · exact h.distinct.imp (fun hd i hi j hj e => hd i hi j hj ((key i j).mpr e))
+
+omit [DecidableEq α] in
+/-- a group of size two is an ascending pair -/
+theorem IsGrouping.pair_shape {vs : List α} {gs : List (List Nat)} (h : IsGrouping vs gs)
+    {g : List Nat} (hg : g ∈ gs) (hl : g.length = 2) : ∃ i j, g = [i, j] ∧ i < j := by
+  match g, hl with
+  | [i, j], _ =>
+    have h1 := h.nodup hg
+    have h2 := h.ascending _ hg
+    simp at h1 h2
+    exact ⟨i, j, rfl, by omega⟩
+
+/-- the groups of size two are exactly the ascending pairs of positions of a value occurring twice -/
+theorem IsGrouping.pair_mem_iff [BEq α] [LawfulBEq α] {vs : List α} {gs : List (List Nat)} (h : IsGrouping vs gs)
+    (d : α) (i j : Nat) :
+    [i, j] ∈ gs ↔ i < j ∧ j < vs.length ∧ vs[i]? = vs[j]? ∧ vs.count (vs.getD i d) = 2 := by
+  constructor
+  · intro hg
+    obtain ⟨i', j', e, hij⟩ := h.pair_shape hg rfl
+    simp only [List.cons.injEq, and_true] at e
+    obtain ⟨rfl, rfl⟩ := e
+    have hi := h.mem_lt hg (i := i) (by simp)
+    have hj := h.mem_lt hg (i := j) (by simp)
+    refine ⟨hij, hj, h.same _ hg i (by simp) j (by simp), ?_⟩
+    have := h.length_eq_count hg (i := i) (by simp) (x := vs[i]) (by simp [hi])
+    rw [List.getD_eq_getElem?_getD, List.getElem?_eq_getElem hi]
+    simpa using this.symm
+  · rintro ⟨hij, hj, e, hc⟩
+    have hi : i < vs.length := by omega
+    obtain ⟨g, hg, hig⟩ := h.covers hi
+    have hjg : j ∈ g := (h.mem_iff hg hig j).mpr ⟨hj, e.symm⟩
+    have hl := h.length_eq_count hg hig (x := vs[i]) (by simp [hi])
+    rw [List.getD_eq_getElem?_getD, List.getElem?_eq_getElem hi] at hc
+    simp only [Option.getD_some] at hc
+    rw [hc] at hl
+    obtain ⟨a, b, rfl, hab⟩ := h.pair_shape hg hl
+    simp only [List.mem_cons, List.not_mem_nil, or_false] at hig hjg
+    have : a = i ∧ b = j := by omega
+    rw [← this.1, ← this.2]; exact hg
+
+/-- (#groups of size two) * 2 = #indices iff every group has size two -/
+theorem pairs_cover_iff : ∀ (gs : List (List Nat)), (∀ g ∈ gs, g ≠ []) →
+    (((gs.filter (fun g => g.length == 2)).length * 2 = gs.flatten.length ↔ ∀ g ∈ gs, g.length = 2) ∧
+      (gs.filter (fun g => g.length == 2)).length * 2 ≤ gs.flatten.length)
+  | [], _ => by simp
+  | g :: t, hne => by
+    have ih := pairs_cover_iff t (fun x hx => hne x (List.mem_cons_of_mem _ hx))
+    have hg : g.length ≠ 0 := by
+      have := hne g (by simp); intro e; exact this (List.length_eq_zero_iff.mp e)
+    simp only [List.filter_cons, List.flatten_cons, List.length_append, List.forall_mem_cons]
+    by_cases e : g.length = 2
+    · simp only [e, beq_self_eq_true, if_true, List.length_cons, true_and]
+      constructor
+      · rw [← ih.1]; omega
+      · omega
+    · have e' : (g.length == 2) = false := by simpa using e
+      simp only [e', Bool.false_eq_true, if_false, e, false_and, iff_false]
+      omega
+
+end TV
+
 namespace TV.Topology
+open TV TV.Grouping
+
+/-! ### edges -/
+
+theorem edges_cons (f : Face) (fs : List Face) :
+    edges (f :: fs) = (f.1, f.2.1) :: (f.2.1, f.2.2) :: (f.2.2, f.1) :: edges fs := by
+  simp [edges]
+
+theorem edges_length (fs : List Face) : (edges fs).length = 3 * fs.length := by
+  induction fs with
+  | nil => rfl
+  | cons f t ih => rw [edges_cons]; simp only [List.length_cons, ih]; omega
+
+theorem edges_getElem? : ∀ (fs : List Face) (i : Nat) (h : i < fs.length),
+    (edges fs)[3 * i]? = some (fs[i].1, fs[i].2.1) ∧
+    (edges fs)[3 * i + 1]? = some (fs[i].2.1, fs[i].2.2) ∧
+    (edges fs)[3 * i + 2]? = some (fs[i].2.2, fs[i].1)
+  | f :: t, 0, _ => by simp [edges_cons]
+  | f :: t, i + 1, h => by
+    have ih := edges_getElem? t i (by simpa using h)
+    rw [edges_cons]
+    have e0 : 3 * (i + 1) = 3 * i + 3 := by omega
+    have e1 : 3 * i + 3 + 1 = 3 * i + 1 + 3 := by omega
+    have e2 : 3 * i + 3 + 2 = 3 * i + 2 + 3 := by omega
+    have sk : ∀ (a b c : Edge) (l : List Edge) (k : Nat), (a :: b :: c :: l)[k + 3]? = l[k]? := by
+      intros; rfl
+    rw [e0, e1, e2, sk, sk, sk]
+    simp only [List.getElem_cons_succ]
+    exact ih
+
+theorem edgesFace_length (fs : List Face) : (edgesFace fs).length = 3 * fs.length := by
+  unfold edgesFace
+  generalize fs.length = n
+  induction n with
+  | zero => rfl
+  | succ n ih => rw [List.range_succ, List.flatMap_append, List.length_append, ih]; simp; omega
+
+theorem edgesFace_getElem? (fs : List Face) (k : Nat) (h : k < 3 * fs.length) :
+    (edgesFace fs)[k]? = some (k / 3) := by
+  unfold edgesFace
+  generalize fs.length = n at h
+  induction n with
+  | zero => omega
+  | succ n ih =>
+    have hl : ((List.range n).flatMap (fun i => [i, i, i])).length = 3 * n := by
+      have := edgesFace_length (List.replicate n (0, 0, 0))
+      simpa [edgesFace] using this
+    rw [List.range_succ, List.flatMap_append]
+    by_cases hk : k < 3 * n
+    · rw [List.getElem?_append_left (by omega)]; exact ih hk
+    · rw [List.getElem?_append_right (by omega), hl]
+      have : k - 3 * n = 0 ∨ k - 3 * n = 1 ∨ k - 3 * n = 2 := by omega
+      have hd : k / 3 = n := by omega
+      rcases this with e | e | e <;> simp [e, hd]
+
+
+/-! ### the edge grouping -/
+
+theorem edgeRow_inj {a b : Edge} (h : edgeRow a = edgeRow b) : a = b := by
+  obtain ⟨a1, a2⟩ := a; obtain ⟨b1, b2⟩ := b
+  simp only [edgeRow, List.cons.injEq, Int.natCast_inj, and_true] at h
+  rw [h.1, h.2]
+
+/-- the index groups computed on the hashed edge rows group the sorted edges by equality -/
+theorem edgeGroups_isGrouping (fs : List Face) :
+    IsGrouping (edgesSorted fs) (groupsOf lexLe (hashableRows 2 (edgeRows fs))) := by
+  obtain ⟨f, hf, finj⟩ := C06.C06_hashable_faithful 2 (edgeRows fs) (by
+    intro r hr; simp only [edgeRows, List.mem_map] at hr
+    obtain ⟨e, _, rfl⟩ := hr; rfl)
+  have h := groupsOf_isGrouping lexLe_isOrder (hashableRows 2 (edgeRows fs))
+  rw [hf] at h ⊢
+  have e : (edgeRows fs).map f = (edgesSorted fs).map (f ∘ edgeRow) := by simp [edgeRows]
+  rw [e] at h ⊢
+  refine IsGrouping.of_map ?_ h
+  intro a ha b hb hab
+  exact edgeRow_inj (finj _ (List.mem_map_of_mem ha) _ (List.mem_map_of_mem hb) hab)
+
+theorem pairGroups_eq (fs : List Face) :
+    pairGroups fs = (groupsOf lexLe (hashableRows 2 (edgeRows fs))).filter (fun g => g.length == 2) := rfl
+
+/-- the groups of `group_rows(edges_sorted, require_count=2)` -/
+theorem mem_pairGroups (fs : List Face) (g : List Nat) :
+    g ∈ pairGroups fs ↔ ∃ i j, g = [i, j] ∧ i < j ∧ j < (edgesSorted fs).length ∧
+      (edgesSorted fs)[i]? = (edgesSorted fs)[j]? ∧
+      (edgesSorted fs).count ((edgesSorted fs).getD i (0, 0)) = 2 := by
+  have h := edgeGroups_isGrouping fs
+  rw [pairGroups_eq, List.mem_filter]
+  constructor
+  · rintro ⟨hg, hl⟩
+    obtain ⟨i, j, rfl, _⟩ := h.pair_shape hg (by simpa using hl)
+    exact ⟨i, j, rfl, (h.pair_mem_iff (0, 0) i j).mp hg⟩
+  · rintro ⟨i, j, rfl, hh⟩
+    exact ⟨(h.pair_mem_iff (0, 0) i j).mpr hh, rfl⟩
+
+theorem mem_drop_take3 {β : Type} (l : List β) (f : Nat) (e : β) :
+    e ∈ (l.drop (3 * f)).take 3 ↔ ∃ i, i / 3 = f ∧ l[i]? = some e := by
+  rw [List.mem_iff_getElem?]
+  constructor
+  · rintro ⟨r, hr⟩
+    rw [List.getElem?_take] at hr
+    split at hr
+    · rw [List.getElem?_drop] at hr
+      exact ⟨3 * f + r, by omega, hr⟩
+    · simp at hr
+  · rintro ⟨i, hi, he⟩
+    refine ⟨i - 3 * f, ?_⟩
+    rw [List.getElem?_take, if_pos (by omega), List.getElem?_drop]
+    have : 3 * f + (i - 3 * f) = i := by omega
+    rw [this]; exact he
+
+theorem mem_faceAdjacency (fs : List Face) (f g : Nat) (e : Edge) :
+    ((f, g), e) ∈ faceAdjacency fs ↔
+      f < g ∧ (edgesSorted fs).count e = 2 ∧ e ∈ ((edgesSorted fs).drop (3 * f)).take 3 ∧
+        e ∈ ((edgesSorted fs).drop (3 * g)).take 3 := by
+  unfold faceAdjacency
+  rw [List.mem_filterMap, mem_drop_take3, mem_drop_take3]
+  constructor
+  · rintro ⟨grp, hgrp, hm⟩
+    obtain ⟨i, j, rfl, hij, hj, hsame, hc⟩ := (mem_pairGroups fs grp).mp hgrp
+    simp only at hm
+    split at hm
+    · rename_i hne
+      simp only [Option.some.injEq, Prod.mk.injEq] at hm
+      obtain ⟨⟨h1, h2⟩, h3⟩ := hm
+      have hi : i < (edgesSorted fs).length := by omega
+      have hle : i / 3 ≤ j / 3 := Nat.div_le_div_right (by omega)
+      rw [List.getD_eq_getElem?_getD, List.getElem?_eq_getElem hi, Option.getD_some] at h3 hc
+      refine ⟨by omega, by rw [← h3]; exact hc, ⟨i, by omega, by rw [← h3]; simp [hi]⟩,
+        ⟨j, by omega, by rw [← h3, ← hsame]; simp [hi]⟩⟩
+    · simp at hm
+  · rintro ⟨hfg, hc, ⟨i, hi3, hi⟩, ⟨j, hj3, hj⟩⟩
+    have hil : i < (edgesSorted fs).length := (List.getElem?_eq_some_iff.mp hi).1
+    have hjl : j < (edgesSorted fs).length := (List.getElem?_eq_some_iff.mp hj).1
+    have hij : i < j := by
+      rcases Nat.lt_or_ge i j with h | h
+      · exact h
+      · have := Nat.div_le_div_right (c := 3) h; omega
+    have hd : (edgesSorted fs).getD i (0, 0) = e := by
+      rw [List.getD_eq_getElem?_getD, hi]; rfl
+    refine ⟨[i, j], (mem_pairGroups fs _).mpr ⟨i, j, rfl, hij, hjl, by rw [hi, hj], by rw [hd]; exact hc⟩, ?_⟩
+    simp only
+    rw [if_pos (by omega), hd]
+    simp only [Option.some.injEq, Prod.mk.injEq, and_true]
+    omega
 
 end TV.Topology
